@@ -153,3 +153,55 @@ Proof.
   destruct (feed_always_ok validate Hok (blocks bs (concat ws)) s0 []) as [s' E].
   rewrite E in H. exists s'. exact H.
 Qed.
+
+(** Which call fails: if the session fails with [k] successful Write calls, then the first [k]
+    writes alone succeed, and either [k = length ws] (the failure happened in Close, on the
+    short last block) or the [k]-th write (0-based) is the one that fails. *)
+Section WhichCall.
+  Context {A St : Type}.
+  Variable bs : nat.
+  Variable validate : St -> list A -> St * bool.
+
+  Lemma writes_failed_at ws : forall (w w' : @dw A St) k0 k,
+    writes bs validate w ws k0 = (w', Failed, k) ->
+    k0 <= k /\ exists w1 d,
+      writes bs validate w (firstn (k - k0) ws) k0 = (w1, Done, k) /\
+      nth_error ws (k - k0) = Some d /\ write bs validate w1 d = (w', Failed).
+  Proof.
+    induction ws as [|d r IH]; intros w w' k0 k Hw; cbn [writes] in Hw; [inversion Hw|].
+    destruct (write bs validate w d) as [w2 o] eqn:Ew. destruct o.
+    - destruct (IH w2 w' (S k0) k Hw) as [Hle [w1 [d1 [Hp [Hn Hf]]]]].
+      split; [lia|]. exists w1, d1. replace (k - k0) with (S (k - S k0)) by lia.
+      cbn [firstn writes nth_error]. rewrite Ew. repeat split; assumption.
+    - inversion Hw; subst w2 k. split; [lia|]. exists w, d. rewrite Nat.sub_diag. cbn [firstn writes nth_error].
+      repeat split; assumption.
+    - inversion Hw.
+  Qed.
+
+  Lemma writes_done_count ws : forall (w w' : @dw A St) k0 k,
+    writes bs validate w ws k0 = (w', Done, k) -> k = k0 + length ws.
+  Proof.
+    induction ws as [|d r IH]; intros w w' k0 k Hw; cbn [writes] in Hw.
+    - inversion Hw. cbn. lia.
+    - destruct (write bs validate w d) as [w2 o]. destruct o; [|inversion Hw|inversion Hw].
+      apply IH in Hw. cbn [length]. lia.
+  Qed.
+
+  Theorem session_failing_call s0 ws (w' : @dw A St) k :
+    session bs validate s0 ws = (w', Failed, k) ->
+    (k = length ws /\ exists w1, writes bs validate (mkdw [] s0 []) ws 0 = (w1, Done, k) /\ close validate w1 = (w', Failed)) \/
+    (k < length ws /\ exists w1 d,
+        writes bs validate (mkdw [] s0 []) (firstn k ws) 0 = (w1, Done, k) /\
+        nth_error ws k = Some d /\ write bs validate w1 d = (w', Failed)).
+  Proof.
+    unfold session. destruct (writes bs validate (mkdw [] s0 []) ws 0) as [[w1 o] k1] eqn:Ew.
+    destruct o.
+    - destruct (close validate w1) as [w2 o2] eqn:Ec. intros Hs. inversion Hs; subst w2 o2 k1.
+      left. pose proof (writes_done_count _ _ _ _ _ Ew) as Hk. cbn in Hk. split; [assumption|].
+      exists w1. split; [reflexivity|assumption].
+    - intros Hs. inversion Hs; subst w1 k1. right.
+      destruct (writes_failed_at _ _ _ _ _ Ew) as [_ [w1 [d [Hp [Hn Hf]]]]]. rewrite Nat.sub_0_r in *.
+      split; [apply nth_error_Some; congruence|]. exists w1, d. repeat split; assumption.
+    - intros Hs. inversion Hs.
+  Qed.
+End WhichCall.
